@@ -9,16 +9,12 @@ NOTE_COMMON = ("Trusted: Lean 4.33 kernel (+leanchecker in the thorough tier), M
                "source (harness/extract_tables.py); CPython containers, networkx, frozendict, cached_method, random, re, "
                "itertools are modelled, not verified.")
 
-CLAIMED = {
-    "C01": dict(
-        text="Machine-checked proof (Lean 4): for every valid DFA/NFA and every word the model's stepwise reader, read_input, "
-             "accepts_input and `in` equal Mathlib's DFA.eval/accepts (table completed with a sink) and εNFA.eval/accepts; "
-             "foreign symbols / missing transitions are rejected, only RejectionException is raised (14 theorems, all proved). "
-             "The model is tied to the code by DFA_READ/NFA_READ correspondence: exhaustive over all ≤2-state automata × short words, "
-             "plus shaped random automata.",
-        technique="Lean 4 theorems about an executable model (refinement to Mathlib DFA/εNFA semantics) + differential correspondence model↔code",
-        design_ref="DESIGN.md §7 C01"),
-}
+import glob
+CLAIMED = {}
+for path in sorted(glob.glob(os.path.join(HERE, "harness", "registry", "C*.json"))):
+    reg = json.load(open(path))
+    if reg.get("manifest"):
+        CLAIMED[reg["property"]] = reg["manifest"]
 
 PENDING_REASON = "check under construction in this session (model + theorems + correspondence not yet registered); see DESIGN.md §7"
 
